@@ -228,24 +228,22 @@ Definition fire_ext (w : world) (e : err) : world :=
   mark_done (set_scopes w (w_scopes w) (w_seq w) None) 0 e.
 
 (* the earliest pending cancellation source: (time, Some scope | None = external) *)
-Definition next_timer (w : world) : option (Z * option nat) :=
-  let fix go (i : nat) (l : list scope) (acc : option (Z * option nat)) :=
-    match l with
-    | [] => acc
-    | sc :: l' =>
-        let acc' :=
-          match sc_deadline sc, acc with
-          | Some d, Some (t, _) => if d <? t then Some (d, Some i) else acc
-          | Some d, None => Some (d, Some i)
-          | None, _ => acc
-          end in
-        go (S i) l' acc'
-    end in
-  go 0%nat (w_scopes w) (match w_ext w with Some (t, _) => Some (t, None) | None => None end).
+Fixpoint nt_go (i : nat) (l : list scope) (acc : option (Z * option nat)) : option (Z * option nat) :=
+  match l with
+  | [] => acc
+  | sc :: l' =>
+      let acc' :=
+        match sc_deadline sc, acc with
+        | Some d, Some (t, _) => if d <? t then Some (d, Some i) else acc
+        | Some d, None => Some (d, Some i)
+        | None, _ => acc
+        end in
+      nt_go (S i) l' acc'
+  end.
 
-(* let time pass until [t_end]; cancellation sources due by then fire in order.  With
-   [intr = Some c] the wait is a select on copy c's Canceled()/Done() channel and ends as soon
-   as that context is done.  Returns (interrupted?, world). *)
+Definition next_timer (w : world) : option (Z * option nat) :=
+  nt_go 0%nat (w_scopes w) (match w_ext w with Some (t, _) => Some (t, None) | None => None end).
+
 (* number of pending sources scheduled for instant t *)
 Definition sources_at (w : world) (t : Z) : nat :=
   length (filter (fun sc => match sc_deadline sc with Some d => d =? t | None => false end) (w_scopes w))
